@@ -15,7 +15,7 @@ From Coq Require Import NArith ZArith Arith List Bool.
 From Pq Require Import Base.Bytes Base.Err Codec.Varint Codec.Zigzag Codec.Bitpack
   Codec.Hybrid Impl.CVarint Impl.CBitpack Impl.CRle Impl.CDelta
   Codec.Plain Proofs.CodecProofs Proofs.PlainProofs Proofs.HybridProofs
-  Proofs.CBitpackProofs Proofs.CRleProofs Proofs.CVarintProofs Proofs.CDeltaProofs.
+  Impl.PyPack Proofs.CBitpackProofs Proofs.CRleProofs Proofs.CVarintProofs Proofs.CDeltaProofs Proofs.CBoolProofs.
 Import ListNotations.
 Open Scope N_scope.
 
@@ -97,6 +97,27 @@ Theorem C11_read_rle_correct : forall w count isz cap input,
         d_written := isz * N.min count (cap / isz) |}.
 Proof. exact read_rle_correct. Qed.
 Print Assumptions C11_read_rle_correct.
+
+(* cencoding.read_bitpacked1 (booleans, width-1 levels): every count, every output capacity *)
+Theorem C11_read_bitpacked1_correct : forall inp count cap,
+  bytes_ok inp -> (N.min count cap + 7) / 8 <= N.of_nat (length inp) ->
+  c_read_bitpacked1 inp count cap =
+  Ok {| d_vals := bool_dec (N.min count cap) inp; d_used := (count + 7) / 8; d_written := N.min count cap |}.
+Proof. exact read_bitpacked1_correct. Qed.
+Print Assumptions C11_read_bitpacked1_correct.
+
+(* encoding.read_plain_boolean *)
+Theorem C11_read_plain_boolean_correct : forall raw count,
+  bytes_ok raw -> (count + 7) / 8 <= N.of_nat (length raw) ->
+  py_read_plain_boolean raw count = Ok (bool_dec count raw).
+Proof. exact read_plain_boolean_correct. Qed.
+Print Assumptions C11_read_plain_boolean_correct.
+
+(* writer.convert's np.pad / np.packbits idiom (witness model of the relation the check evaluates on the real bytes) *)
+Theorem C11_packbits_is_bp1 : forall vs, Forall (fun b => b < 2) vs ->
+  bool_dec (N.of_nat (length vs)) (py_bool_pack vs) = vs.
+Proof. exact packbits_is_bp1. Qed.
+Print Assumptions C11_packbits_is_bp1.
 
 (* cencoding.delta_read_bitpacked: a miniblock of 8g values of every width 0 < w <= 28 *)
 Theorem C11_delta_read_bitpacked_correct : forall w g input,
